@@ -674,7 +674,159 @@ def gallina_type(ty):
     return "bool" if ty == "bool" else "N"
 
 
+def parse_rty(ts, i=0):
+    """parse a Rust type from token list ts starting at i; returns (gallina-string, next-index)"""
+    def skip_lifetime(i):
+        while i < len(ts) and ts[i][0] == "lifetime":
+            i += 1
+        return i
+    v = ts[i][1]
+    if v == "&":
+        i = skip_lifetime(i + 1)
+        mut = False
+        if ts[i][1] == "mut":
+            mut = True
+            i += 1
+        inner, i = parse_rty(ts, i)
+        return ("(RefMut %s)" % inner if mut else "(Ref %s)" % inner), i
+    if v == "[":
+        inner, i = parse_rty(ts, i + 1)
+        # [T] or [T; N]
+        while ts[i][1] != "]":
+            i += 1
+        return "(Slice %s)" % inner, i + 1
+    if v == "(":
+        # tuple
+        i += 1
+        items = []
+        while ts[i][1] != ")":
+            t, i = parse_rty(ts, i)
+            items.append(t)
+            if ts[i][1] == ",":
+                i += 1
+        return "(App \"tuple\" [%s])" % "; ".join(items), i + 1
+    if v in ("dyn", "impl"):
+        return "(Leaf \"%s\")" % v, len(ts)
+    # path with optional generics
+    name = ts[i][1]
+    i += 1
+    while i < len(ts) and ts[i][1] == "::":
+        name = ts[i + 1][1]
+        i += 2
+    if i < len(ts) and ts[i][1] == "<":
+        i += 1
+        args = []
+        while ts[i][1] != ">":
+            if ts[i][0] == "lifetime":
+                i += 1
+            elif ts[i][0] == "num" or (ts[i][0] == "ident" and ts[i][1].isupper()):
+                i += 1  # const generic
+            else:
+                t, i = parse_rty(ts, i)
+                args.append(t)
+            if i < len(ts) and ts[i][1] == ",":
+                i += 1
+        return "(App \"%s\" [%s])" % (name, "; ".join(args)), i + 1
+    return "(Leaf \"%s\")" % name, i
+
+
+def translate_struct(pt, toks):
+    """struct NAME { field: Type, ... } -> list (string * rty)"""
+    name = pt["name_in_source"]
+    hits = []
+    for i in range(len(toks) - 1):
+        if toks[i][1] == "struct" and toks[i + 1][1] == name:
+            j = i + 2
+            while toks[j][1] != "{":
+                if toks[j][1] == ";":
+                    raise LookupError("tuple/unit struct")
+                j += 1
+            e = match_brace(toks, j)
+            hits.append((j + 1, e))
+    if len(hits) != 1:
+        raise LookupError("%d struct definitions named %s" % (len(hits), name))
+    a, b = hits[0]
+    fields = []
+    i = a
+    while i < b:
+        # skip attributes and visibility
+        if toks[i][1] == "#":
+            i = match_brace(toks, i + 1, "[", "]") + 1
+            continue
+        if toks[i][1] == "pub":
+            i += 1
+            if toks[i][1] == "(":
+                i = match_brace(toks, i, "(", ")") + 1
+            continue
+        fname = toks[i][1]
+        assert toks[i + 1][1] == ":", "field syntax at %s" % fname
+        # type tokens up to the top-level comma
+        j = i + 2
+        depth = 0
+        while j < b:
+            v = toks[j][1]
+            if v in ("<", "(", "["):
+                depth += 1
+            elif v in (">", ")", "]"):
+                depth -= 1
+            elif v == "," and depth == 0:
+                break
+            j += 1
+        ty, _ = parse_rty(toks[i + 2:j] + [("op", ",", 0)])
+        fields.append('("%s", %s)' % (fname, ty))
+        i = j + 1
+    src = toks_text(toks[a:b])
+    return src[:200], "[" + "; ".join(fields) + "]"
+
+
+def translate_fnparams(pt, toks):
+    """parameter types of `fn NAME(...)` inside the given scopes -> list (string * rty)"""
+    ranges = narrow(toks, pt.get("scope", []))
+    hits = []
+    for (a, b) in ranges:
+        for i in range(a, b - 1):
+            if toks[i][1] == "fn" and toks[i + 1][1] == pt["name_in_source"]:
+                j = i + 2
+                while toks[j][1] != "(":
+                    j += 1
+                hits.append((j + 1, match_brace(toks, j, "(", ")")))
+    if len(hits) != 1:
+        raise LookupError("%d fns named %s" % (len(hits), pt["name_in_source"]))
+    a, b = hits[0]
+    params = []
+    i = a
+    while i < b:
+        j = i
+        depth = 0
+        while j < b:
+            v = toks[j][1]
+            if v in ("<", "(", "["):
+                depth += 1
+            elif v in (">", ")", "]"):
+                depth -= 1
+            elif v == "," and depth == 0:
+                break
+            j += 1
+        part = toks[i:j]
+        txt = [t[1] for t in part]
+        if txt and txt[-1] == "self":
+            ty = "(RefMut (Leaf \"Self\"))" if "mut" in txt else ("(Ref (Leaf \"Self\"))" if "&" in txt else "(Leaf \"Self\")")
+            params.append('("self", %s)' % ty)
+        elif ":" in txt:
+            k = txt.index(":")
+            ty, _ = parse_rty(part[k + 1:] + [("op", ",", 0)])
+            params.append('("%s", %s)' % (txt[k - 1], ty))
+        i = j + 1
+    return toks_text(toks[a:b])[:200], "[" + "; ".join(params) + "]"
+
+
 def translate_point(pt, toks, cx):
+    if pt["kind"] == "struct":
+        src, body = translate_struct(pt, toks)
+        return src, body, ("rtys", None), [], []
+    if pt["kind"] == "fnparams":
+        src, body = translate_fnparams(pt, toks)
+        return src, body, ("rtys", None), [], []
     cands = locate(toks, pt)
     if len(cands) != 1:
         raise LookupError("%d candidates (need exactly 1)" % len(cands))
@@ -731,7 +883,7 @@ def main():
                 lines.append("(* MISS %s: %s *)" % (pt["name"], str(e).replace("*)", "* )")))
                 continue
             args = " ".join("(%s : %s)" % (p[1], gallina_type(p[2])) for p in params)
-            rty = "bool" if ty[0] == "bool" else ("list N" if ty[0] == "list" else "N")
+            rty = "bool" if ty[0] == "bool" else ("list N" if ty[0] == "list" else ("list (string * rty)" if ty[0] == "rtys" else "N"))
             lines.append("(* %s :: %s  [%s]" % (pt["file"], " / ".join(pt.get("scope", [])) or "top", pt["kind"]))
             lines.append("   %s *)" % src.replace("*)", "* )").replace("(*", "( *"))
             lines.append("Definition %s %s: %s := %s." % (pt["name"], args + (" " if args else ""), rty, body))
